@@ -463,6 +463,8 @@ func execC07(rt *rapid.T, w *World, m Method) {
 	srcT := reflect.TypeOf(m.Fn).In(0)
 	b := NewBuilder(rapidChooser{rt}, 0)
 	b.UniqueID = true
+	b.MaxDepth = 20 // long chains of unnamed containers (location paths beyond 8 elements)
+	b.Budget = 140
 	src := b.Build(srcT)
 	orderSeed := rapid.Uint64().Draw(rt, "map-order-seed")
 	setOrder := func(k uint64) {
